@@ -654,7 +654,8 @@ def gen_sched(rng, numbers, dt, t0, t1, hist, adversarial=True):
                 pts.add(rng.choice([t0 - dt, t1 + dt, t1 + 0.25 * dt, t1]))
         return {"kind": "fixed", "interrupts": sorted(pts)}
     if k == "logarithmic":
-        f = rng.choice([1.0, 1.5, 2.0, 1.25, 3.0]) if numbers == "Q" else rng.choice([1.0, 1.1, 1.3, 2.0, 1.7])
+        # dyadic mode: only factors that keep dt*f^k exactly representable for every k
+        f = rng.choice([1.0, 2.0, 2.0, 4.0]) if numbers == "Q" else rng.choice([1.0, 1.1, 1.3, 2.0, 1.7, 1.25, 1.5, 3.0])
         return {"kind": "logarithmic", "dt_initial": rng.choice(ratios) * dt, "factor": f,
                 "t_start": None if rng.random() < 0.8 else t0 + rng.choice(ratios) * dt}
     if k == "geometric":
